@@ -11,7 +11,7 @@ DESCRIPTION = {
              "Oracle: the callback log matches connect? join? leave? disconnect? in that order, each at most once; leave fired exactly once when a joined session ended or the "
              "router aborted; the illegal message raises ProtocolError and is not acted on; GOODBYE written at most once and a peer GOODBYE answered iff we had not sent one; once "
              "the transport is gone every request Deferred/Future is completed with an error (already at leave time when the library's own onLeave ran) and call/publish/subscribe/"
-             "register raise TransportLost.  Non-trivial = >=1 outstanding request at the end and an exit path other than WELCOME-leave-GOODBYE; distinct by (history, loss position)."),
+             "register raise TransportLost.  The reason URI and message on the router's GOODBYE are drawn per history (six URIs including wamp.close.goodbye_and_out and an error URI): whether it is answered depends only on who initiated.  Non-trivial = >=1 outstanding request at the end and an exit path other than WELCOME-leave-GOODBYE; distinct by (history, loss position)."),
     "assumptions": ["when this side aborts the attempt (failing onChallenge, onWelcome veto) the library fires leave: permitted but not required", "re-joining on the same transport is not generated"],
 }
 
